@@ -43,7 +43,8 @@ def group(lines, ctx):
         elif "tree" in v:
             c["tree"], c["ext"] = v["tree"], v["ext"]
         elif "nraws" in v:
-            c["canon"] = dict(nstab=_obj(v["nstab"]), k=v["k"], inl=v["inl"], nraws=v["nraws"])
+            c["canon"] = dict(nstab=_obj(v["nstab"]), k=v["k"], inl=v["inl"], nraws=v["nraws"],
+                              clink=_obj(v["clink"]), rb=_obj(v["rb"]), rbvr=v["rbvr"])
         elif "raw" in v:
             c["_raws"].append(dict(raw=v["raw"], exp=v["exp"]))
         else:
